@@ -10,7 +10,8 @@ res="ID=$ID"
 if git apply --check $SRC/patch.diff 2>/dev/null; then res="$res patch_applies=yes"; else res="$res patch_applies=NO"; fi
 # original build + demo
 cmake -G Ninja -B _build -S . -DCMAKE_BUILD_TYPE=RelWithDebInfo >/dev/null 2>&1 && cmake --build _build -j8 >/dev/null 2>&1 || res="$res orig_build=FAIL"
-DEMOFLAGS="-I$WT/include -I$WT/src $SRC/demo.c $WT/_build/liblcdb.a -lpthread -lm"
+EXTRA=""; [ -f $SRC/demo.flags ] && EXTRA=$(cat $SRC/demo.flags)
+DEMOFLAGS="-I$WT/include -I$WT/src $SRC/demo.c $WT/_build/liblcdb.a -lpthread -lm $EXTRA"
 cc -O1 -g $DEMOFLAGS -o $TT/demo_orig 2>$TT/cc.log || res="$res demo_compile=FAIL"
 mkdir -p $TT/scratch-orig $TT/scratch-mut
 (cd $TT && TEST_TMPDIR=$TT timeout 600 ./demo_orig $TT/scratch-orig >$TT/demo_orig.out 2>&1); res="$res demo_on_original_rc=$?"
